@@ -29,6 +29,17 @@ def run(tier, seed, vh, only_paths=None, mode=None):
         # the clean run (no crash) of every history is the baseline
         for h in hist[: (16 if tier == "quick" else 120)]:
             cases.append({"ops": h, "at": 0, "site": "none"})
+        # directed histories (GenCover): calls whose implementation takes several statements or transactions, killed at
+        # every site of that call only
+        cover, g3 = fam_seq.gen_cover(run, seed + 5, 2 if tier == "quick" else 6)
+        multi = {"SetWithMeta", "DeleteWithMeta", "WriteUpdateWithXattrs", "Update", "WriteSubDoc", "SubdocInsert", "DeleteSubDocPaths",
+                 "Incr", "SwapDDoc", "WriteWithXattrs", "WriteTombstoneWithXattrs", "UpdateXattrDeleteBody", "Touch", "GetAndTouchRaw"}
+        cand = [h for h in cover if len(h) >= 2 and h[-2]["op"] in multi and all(o["coll"] == "c1" or o["op"] in ("Set", "Add") for o in h)]
+        rnd.shuffle(cand)
+        for h in cand[: (24 if tier == "quick" else 200)]:
+            for site in SITES:
+                cases.append({"ops": h, "at": len(h) - 1, "site": site})
+        gen += g3
         # a pending expiration whose deadline passes while the bucket is closed: killed right after the last
         # acknowledgement, or ended without a crash; re-opened two seconds after the deadline
         for h in hist[: (3 if tier == "quick" else 12)]:
